@@ -34,6 +34,7 @@ FA(from, to, rm, df, ig, af, at, asty) ==
 \* ii : savefile_introspect_ignore, ik : savefile_introspect_key  (no effect on the wire format or the schema)
 WithII(a) == [a EXCEPT !.ii = TRUE]
 WithIK(a) == [a EXCEPT !.ik = TRUE]
+Ign == [FA(0, INF, "no", "default", TRUE, 1, 0, P("unit")) EXCEPT !.ii = FALSE]     \* #[savefile_ignore]: in memory, never on the wire
 Plain == FA(0, INF, "no", "default", FALSE, 1, 0, P("unit"))
 
 Str              == T("str", "String", 0, <<>>, <<>>)
@@ -55,6 +56,7 @@ StructA(repr, ts, fa) == T("struct", repr, 0, ts, fa)
 Var(from, ts)    == T("var", "", from, ts, [i \in 1..Len(ts) |-> Plain])
 NVar(from, ts)   == T("var", "{}", from, ts, [i \in 1..Len(ts) |-> Plain])   \* variant with NAMED fields  V { f0: .., f1: .. }
 VarD(d, ts)      == T("var", d, 0, ts, [i \in 1..Len(ts) |-> Plain])
+VarA(ts, fa)     == T("var", "", 0, ts, fa)                                       \* variant with field attributes
 Enum(repr, vars) == T("enum", repr, 0, vars, <<>>)
 \* n > 0 on an enum node: the enum has n variants in total, all unit, of which
 \* only the listed boundary variants are spelled out (for 257 / 65537-variant enums)
